@@ -381,6 +381,18 @@ def _split_ws(ex, st, s, maxsplit):
 def m_join(ex, st, s, args):
     lst = args[0]
     from .values import Ref as _Ref, JoinAtom
+    if type(lst).__name__ == "SGen":
+        # sep.join(<generator expression>): materialise the generator (same evaluation order as CPython)
+        ge = lst.node
+        if len(ge.generators) != 1 or ge.generators[0].ifs:
+            raise Unsupported("join over a generator with filters / nesting")
+        rs = ex.ev(ge.generators[0].iter, st)
+        if len(rs) != 1 or rs[0].exc is not None:
+            raise Unsupported("join generator iterable forks")
+        ms = ex.map_seq(rs[0].st, rs[0].v, ge.generators[0].target, ge.elt)
+        if len(ms) != 1 or ms[0].exc is not None:
+            raise Unsupported("join generator element forks")
+        st, lst = ms[0].st, ms[0].v
     if isinstance(lst, _Ref) and isinstance(st.obj(lst), HList) and st.obj(lst).prefix is not None and s.concrete() == b"":
         o = st.obj(lst)
         out = SStr([], s.is_str)
@@ -559,6 +571,7 @@ def to_int(ex, st, v, base=10):
     if a is not None:
         val = fn(w.base, w.lo, w.hi)
         a.assume(val >= 0, Implies(w.length() == 1, val == digit_value(z3.Select(w.base, w.lo))))
+        a.assume(pyint(w.base, w.lo, w.hi, iv(base)) == val)
         out.append(ex.res(a, SInt(val)))
     if b is not None:
         # not plain digits: definitely invalid if empty or contains a char that can never occur in an int literal
@@ -575,8 +588,12 @@ def to_int(ex, st, v, base=10):
         if b2 is not None:
             out.append(ex.res_exc(b2, SExc(ValueError)))
             b3 = b2.fork()
-            out.append(ex.res(b3, SInt(fresh_int("intval"))))
+            # int() is a function of the text: signs / blanks / underscores give SOME integer, the same every time
+            out.append(ex.res(b3, SInt(pyint(w.base, w.lo, w.hi, iv(base)))))
     return out
+
+
+pyint = z3.Function("pyint", z3.ArraySort(z3.IntSort(), z3.IntSort()), z3.IntSort(), z3.IntSort(), z3.IntSort(), z3.IntSort())
 
 
 def digit_value(c):
